@@ -125,6 +125,16 @@ def check_image(rec, n, nbins, idx, shard=False):
                             if not _same(gi, ref):
                                 fails.append(f"{fam}: rule {rule!r} on the image stored as {np.dtype(dt).name} (values {int(d8.min())}..{int(d8.max())}) "
                                              "does not locate the droplets of the spec's binary image")
+            # small signed integers with unit steps (values shifted to straddle zero): the mean and the midpoint are
+            # negative fractions for many images
+            if hi > lo and hi - lo <= 16 and float(hi).is_integer() and float(lo).is_integer() and fam in ("cart1", "cart1p", "cart2"):
+                shift = int(round((hi + lo) / 2)) + 1
+                fi = ScalarField(grid, (data - shift).astype(np.int8), dtype=np.int8)
+                for rule, mask, t in rules:
+                    ref = locate_droplets_in_mask(ScalarField(grid, mask.reshape(shape), dtype=bool))
+                    gi = locate_droplets(fi, threshold=(t - shift) if t is not None else rule)
+                    if not _same(gi, ref):
+                        fails.append(f"{fam}: rule {rule!r} on the image shifted by {-shift} and stored as int8 does not locate the droplets of the spec's binary image")
             if nbins == 256 and rec["otsu"]:
                 got = locate_droplets(field, threshold="otsu")
                 refs = [locate_droplets_in_mask(ScalarField(grid, m.reshape(shape), dtype=bool)) for m in otsu_masks]
